@@ -26,7 +26,7 @@ EXPLANATION = (
 )
 MANIFEST_ENTRY = {
     "category": "exploration",
-    "text": "Solver-enumerated exploration: every expression node class through the error-naming helper; seeded token-level mutations of the repository's Scenic programs through the real parser and compiler (outcome: success or located ScenicSyntaxError; compiler state inactive afterwards); faults at each compilation stage.",
+    "text": "Solver-enumerated exploration: every expression node class through the error-naming helper; statement templates (tracked names in every binding position, numeric literal forms, f-string conversions) and seeded token-level mutations of the repository's Scenic programs through the real parser and compiler (outcome: success or located ScenicSyntaxError; compiler state inactive afterwards); faults at each compilation stage.",
     "note": "A symbolic source text concretises at the first token comparison, so the grammar itself is not reasoned about symbolically: the choice variables (site, operator, replacement, node class, fault stage) are enumerated by the solver over bounded, seeded sets. Outside: parser non-termination (per-input wall-clock limit only), all mutations of all programs.",
 }
 ASSUMPTIONS = ["mutation sites / vocabulary are seeded samples (VERIF_SEED)"]
